@@ -99,7 +99,9 @@ def _history_univariate(spec, ctx):
         for hk in history:
             np.random.seed(1)
             try:
-                m.fit(_hist_data(hk, rng_for(spec['seed'], hk), X))
+                D = _hist_data(hk, rng_for(spec['seed'], hk), X)
+                m.fit(D)
+                fpr.univariate(m, D, with_samples=True)      # the model is USED between the fits
             except Exception:      # noqa: BLE001 - a refused earlier fit is part of the history
                 pass
         np.random.seed(G)
@@ -138,6 +140,7 @@ def _history_bivariate(spec, ctx):
         for D in history:
             try:
                 m.fit(D)
+                fpr.bivariate(m)
             except Exception:   # noqa: BLE001
                 pass
         m.fit(X.copy())
@@ -176,6 +179,7 @@ def _history_gaussian(spec, ctx):
             np.random.seed(1)
             try:
                 m.fit(D)
+                fpr.gaussian_mv(m, D, cdf_rows=1)
             except Exception:   # noqa: BLE001
                 pass
         np.random.seed(G)
@@ -218,6 +222,7 @@ def _history_vine(spec, ctx):
             for D in history:
                 try:
                     m.fit(D)
+                    fpr.vine(m, [np.full((1, d), 0.4)], rows=1)
                 except Exception:   # noqa: BLE001
                     pass
             m.fit(df.copy())
